@@ -183,3 +183,45 @@ theorem setActionDist_valid (n : Nat) (acts : List Nat) (h : ∀ a ∈ acts, a <
       simp
 
 end QE.C20
+
+namespace QE.C20
+
+/-- ℓ¹ distance between two action distributions (number of "player-moves" × 2) -/
+def l1dist (x y : List Int) : Nat :=
+  ((List.range x.length).map (fun j => (x.getD j 0 - y.getD j 0).natAbs)).sum
+
+theorem sum_two_indicators (a b : Nat) : ∀ n : Nat,
+    ((List.range n).map (fun j => (if j = a then 1 else 0) + (if j = b then 1 else 0))).sum =
+      (if a < n then 1 else 0) + (if b < n then 1 else 0) := by
+  intro n
+  induction n with
+  | zero => simp
+  | succ n ih =>
+    rw [List.range_succ, List.map_append, List.sum_append, ih]
+    simp only [List.map_cons, List.map_nil, List.sum_cons, List.sum_nil, Nat.add_zero]
+    split_ifs <;> omega
+
+/-- moving one player changes the distribution by ℓ¹ distance 2 (or 0 if the player stays) -/
+theorem l1dist_move (d : List Int) (a b : Nat) (ha : a < d.length) (hb : b < d.length) :
+    l1dist (move d a b) d = if a = b then 0 else 2 := by
+  unfold l1dist
+  have hlen : (move d a b).length = d.length := by simp [move, bump_length]
+  rw [hlen]
+  have hf : ∀ j, ((move d a b).getD j 0 - d.getD j 0).natAbs =
+      if a = b then 0 else ((if j = a then 1 else 0) + (if j = b then 1 else 0)) := by
+    intro j
+    rw [move_getD d a b j ha hb]
+    by_cases hab : a = b
+    · subst hab; by_cases hj : j = a <;> simp [hj]
+    · simp only [hab, if_false]
+      split_ifs <;> omega
+  simp only [hf]
+  by_cases hab : a = b
+  · have hz : ∀ l : List Nat, (l.map (fun _ => (0 : Nat))).sum = 0 := by
+      intro l; induction l <;> simp_all
+    simpa [hab] using hz (List.range d.length)
+  · simp only [hab, if_false]
+    rw [sum_two_indicators a b d.length]
+    simp [ha, hb]
+
+end QE.C20
